@@ -8,6 +8,10 @@
     delta <enc> <dist> <hex> <len,len,...|->                         -> "<hex>"   (the static loops, chunk by chunk)
     dstream <enc> <next> <dist> <hex> <in:out:act,...>               -> like stream
     deltax <enc> <dist> <hex>                                        -> "<hex>"   (large inputs, processed in 4 KiB pieces)
+    rstream / rdstream ...                                           -> as stream / dstream (the harness runs them on a reused coder object)
+    chain <reuse> <fid|delta> <enc> <param> <hex>                    -> "init=0 out=<hex>" | "init=8": the whole stream through the filter
+    mblock <reuse> <fid|delta> <param> <hex> <cut,...>               -> "rt=1 blocks=<hex>,<hex>,...": each non-empty piece filtered on its own
+    dirty <fid|delta> <enc> <param> <hex>                            -> "ok"
     cov <fid> <now_pos> <hex>                                        -> branch statistics of the encoder on this buffer (model only; evidence)
   fid: x86 powerpc ia64 arm armthumb sparc arm64 riscv;  enc: 1 = encoder, 0 = decoder;  next: 0 = NULL, 1 = pass-through;
   act: 0 RUN, 1 SYNC_FLUSH, 2 FULL_FLUSH, 3 FINISH.
@@ -207,8 +211,59 @@ def blockCov (f : FilterId) (pc0 : BitVec 32) (bs : List UInt8) : String := Id.r
 def listOf {α : Type} (f : String → Option α) (s : String) : Option (List α) :=
   if s == "-" then some [] else (s.splitOn ",").mapM f
 
-def step (_ : Unit) (ws : List String) : Unit × String :=
+/-- the whole byte string through one filter (BCJ: one `simple_code` call with LZMA_FINISH; delta: in 4 KiB pieces); `none` = init error -/
+def wholeFilter (name : String) (enc : Bool) (param : Nat) (bs : List UInt8) : Option (List UInt8) :=
+  if name == "delta" then
+    if !Delta.distValid param then none
+    else Id.run do
+      let mut s := Delta.State.init param
+      let mut rest := bs
+      let mut out : Array UInt8 := #[]
+      for _ in [0:bs.length / 4096 + 1] do
+        let (s', o) := if enc then Delta.encode s (rest.take 4096) else Delta.decode s (rest.take 4096)
+        s := s'
+        rest := rest.drop 4096
+        out := out.appendList o
+      return some out.toList
+  else
+    match fidOf name with
+    | none => none
+    | some f =>
+      match Coder.init f enc Next.passthrough (BitVec.ofNat 32 param) with
+      | none => none
+      | some c => some (simpleCode c bs bs.length Action.finish).2.out
+
+def stepCore (_ : Unit) (ws : List String) : Unit × String :=
   match ws with
+  | ["chain", _, name, enc, param, hx] =>
+    match boolOf enc, param.toNat?, parseHex hx with
+    | some e, some pa, some bs =>
+      match wholeFilter name e pa bs with
+      | none => ((), s!"init={LZMA_OPTIONS_ERROR}")
+      | some o => ((), s!"init=0 out={toHex o}")
+    | _, _, _ => ((), "bad-op")
+  | ["mblock", _, name, param, hx, cuts] =>
+    match param.toNat?, parseHex hx, listOf String.toNat? cuts with
+    | some pa, some bs, some cuts => Id.run do
+      let n := bs.length
+      let mut start := 0
+      let mut blocks : Array String := #[]
+      let mut bad := false
+      let mut fin := false
+      for v in cuts ++ [n] do
+        if !fin then
+          let (stop, last) := if v < n then ((if v < start then start else v), false) else (n, true)
+          let piece := (bs.drop start).take (stop - start)
+          if !piece.isEmpty then
+            match wholeFilter name true pa piece with
+            | none => bad := true
+            | some o => blocks := blocks.push (toHex o)
+          start := stop
+          if last then fin := true
+      if bad then return ((), s!"init={LZMA_OPTIONS_ERROR}")
+      return ((), s!"rt=1 blocks={if blocks.isEmpty then "-" else ",".intercalate blocks.toList}")
+    | _, _, _ => ((), "bad-op")
+  | ["dirty", _, _, _, _] => ((), "ok")
   | ["code", fid, enc, np, pm, pp, hx] =>
     match fidOf fid, boolOf enc, np.toNat?, pm.toNat?, pp.toNat?, parseHex hx with
     | some f, some e, some np, some pm, some pp, some bs =>
@@ -287,5 +342,12 @@ def step (_ : Unit) (ws : List String) : Unit × String :=
       return ((), strOfAscii out)
     | _, _, _ => ((), "bad-op")
   | _ => ((), "bad-op")
+
+/-- the reused-handle variants are answered like the fresh-handle ops: the model's init does not depend on earlier use -/
+def step (u : Unit) (ws : List String) : Unit × String :=
+  match ws with
+  | "rstream" :: rest => stepCore u ("stream" :: rest)
+  | "rdstream" :: rest => stepCore u ("dstream" :: rest)
+  | _ => stepCore u ws
 
 def main : IO Unit := runLoop step ()
